@@ -7,6 +7,7 @@ import (
 
 	"github.com/gordian-engine/gordian/tm/tmconsensus"
 	"github.com/gordian-engine/gordian/tm/tmengine/internal/tmmirror"
+	"github.com/gordian-engine/gordian/tm/tmengine/internal/tmstate"
 )
 
 // The Mirror follows the state of the active validators on the network,
@@ -30,12 +31,21 @@ func NewMirror(ctx context.Context, log *slog.Logger, opts ...Opt) (Mirror, erro
 	// Note that we never start the Engine we instantiate.
 	var e Engine
 
+	// The options are shared with the Engine and many of them also assign
+	// to the state machine's configuration, so give them one to write to;
+	// the standalone mirror ignores it.
+	var smCfg tmstate.StateMachineConfig
+
 	var err error
 	for _, opt := range opts {
-		err = errors.Join(opt(&e, nil))
+		err = errors.Join(err, opt(&e, &smCfg))
 	}
 	if err != nil {
 		return nil, err
+	}
+
+	if e.genesis == nil {
+		return nil, errors.New("no genesis set (use tmengine.WithGenesis)")
 	}
 
 	cfg := e.mCfg
@@ -82,6 +92,11 @@ func validateMirrorSettings(cfg tmmirror.MirrorConfig) error {
 	}
 	if cfg.CommonMessageSignatureProofScheme == nil {
 		err = errors.Join(err, errors.New("no common message signature proof scheme set (use tmengine.WithCommonMessageSignatureProofScheme)"))
+	}
+
+	if cfg.Watchdog == nil {
+		// The mirror kernel calls Monitor on it unconditionally.
+		err = errors.Join(err, errors.New("no watchdog set (use tmengine.WithWatchdog)"))
 	}
 
 	return err
